@@ -851,7 +851,7 @@ def part_bootstrap(ctx, scr):
             ("medium", "fixed4096"), ("medium", "random"), ("medium", "bounds+1"), ("medium", "dribble"),
             ("pipe", "fixed70000"), ("pipe", "random"), ("pipe", "whole"), ("huge", "random"), ("huge", "fixed65536")]
     if not quick:
-        plan = plan * 4 + [(p, h) for p in ("tiny", "small", "medium") for h in ("whole", "fixed2", "fixed3", "fixed8192", "bounds", "bounds3")] * 2 \
+        plan = plan * 10 + [(p, h) for p in ("tiny", "small", "medium") for h in ("whole", "fixed2", "fixed3", "fixed8192", "bounds", "bounds3")] * 2 \
             + [("huge", "whole"), ("huge", "fixed70000"), ("pipe", "bounds3"), ("pipe", "fixed8192")]
     for profile, how in plan:
         cases.append({"mode": "real", "srcs": gen_table(rng, profile), "how": how, "profile": profile,
@@ -861,7 +861,7 @@ def part_bootstrap(ctx, scr):
     plan2 = [("tiny", "dribble"), ("small", "dribble"), ("small", "random"), ("small", "bounds3"), ("medium", "random"),
              ("medium", "fixed7"), ("tiny", "bounds-1"), ("small", "fixed2")]
     if not quick:
-        plan2 = plan2 * 6
+        plan2 = plan2 * 15
     for profile, how in plan2:
         cases.append({"mode": "stub", "srcs": gen_table(rng, profile), "how": how, "profile": profile,
                       "options": gen_options(rng, full=rng.random() < 0.7),
